@@ -50,7 +50,7 @@ def one_run(build, kind, sr_name, method, tol, kmax, dtype, project, tol_scale=1
                     sp = fggs.sum_products(g, method=method, semiring=AG.semiring_for(kind, dtype), tol=tol, kmax=kmax)
             finally:
                 run['trace'] = [list(list(x) if isinstance(x, tuple) else x for x in ev) for ev in (log or [])]
-        run['warned'] = any('convergence' in str(w.message) or 'iteration' in str(w.message) for w in wl)
+        run['warned'] = any('index type mismatch' not in str(w.message) for w in wl)      # ANY warning counts as "says otherwise": the wording is not specified
         for el, t in sp.items():
             if el.is_nonterminal:
                 run['res'][el.name] = project(t.to_dense())
